@@ -164,6 +164,14 @@ pub fn run(sink: &mut Sink, thorough: bool, seed: u64) {
         emit(sink, lit, "fixed");
     }
 
+    // ---- zero significands and deep underflows with every sign and a dense set of exponents:
+    //      the paths of f64_from_parts that leave the POW10 table (|exponent| > 308) must keep the sign
+    for e in [-2147483647i64, -100000, -1000, -925, -700, -650, -640, -620, -400, -325, -324, -310, -309, -308, -307, -1, 0, 1, 307, 308, 309, 310, 400, 1000, 2147483647] {
+        for m in ["0", "0.0", "0.000", "1", "1.5", "12345678901234567890", "0.00001"] {
+            for sign in ["", "-"] { emit(sink, &format!("{}{}e{}", sign, m, e), "zero-underflow"); }
+        }
+    }
+
     // ---- every power of ten 1e-400 .. 1e400, every spelling
     for e in -400i64..=400 {
         emit_spellings(sink, &mut r, "1", e, "pow10", true);
